@@ -432,4 +432,8 @@ def scenarios_c13(tier):
         for opx in (("apply", 2), ("rewind",), ("clear",), ("replace", 2, 2)):
             for j in range(0, 3):
                 out.append({"k": k, "other": 1, "op": opx, "crash_at": j})
+    if tier == "quick":
+        # a rewind that removes two records: the smallest case in which dying between two deletions shows
+        for j in range(0, 3):
+            out.append({"k": 3, "other": 1, "op": ("rewind",), "crash_at": j})
     return out
